@@ -335,7 +335,9 @@ DecideTokenExchange(a) ==
       granted == a.caller \in Clients /\ "te" \in Reg[a.caller].grants
       eff == IF a.requested = "" THEN cfg.policy.defType ELSE a.requested
       hasActor == a.actor.kind # "none"
-      typesOK == a.subj.declared # "unknown" /\ a.requested # "unknown" /\ (hasActor => a.actor.declared # "unknown")
+      \* "absent": the token is sent without its *_token_type parameter. A subject token without type is an unsupported type;
+      \* an actor token without type passes the type check and then fails verification (no verifier for the empty type)
+      typesOK == a.subj.declared \notin {"unknown", "absent"} /\ a.requested # "unknown" /\ (hasActor => a.actor.declared # "unknown")
       sub == IF cfg.policy.imp # "" THEN cfg.policy.imp ELSE SubOfRef(a.subj)
       sc == Range(a.scopes) \ {cfg.policy.drop}
       body ==
@@ -451,7 +453,8 @@ RefArgs ==
   LET none == [kind |-> "none", form |-> "none", id |-> "none", declared |-> "none"]
       ats == {[kind |-> "access", form |-> f, id |-> t, declared |-> d] : f \in (IF Narrow THEN TokForms ELSE {"issued", "flipBody"}),
                                                                           t \in DOMAIN toks \cup {"a0"}, d \in {"access"}}
-             \cup {[kind |-> "access", form |-> "issued", id |-> t, declared |-> d] : t \in DOMAIN toks, d \in {"refresh", "id", "jwt", "unknown"}}
+             \cup {[kind |-> "access", form |-> "issued", id |-> t, declared |-> d] : t \in DOMAIN toks, d \in {"refresh", "id", "jwt", "unknown", "absent"}}
+             \cup {[kind |-> "access", form |-> "garbage", id |-> "a0", declared |-> "absent"]}
       fs  == {[kind |-> "refresh", form |-> "issued", id |-> f, declared |-> d] : f \in DOMAIN rts \cup {"f0"}, d \in {"refresh", "access"}}
       is  == {[kind |-> "id", form |-> f, id |-> i, declared |-> "id"] : f \in {"valid", "expired", "wrongkey", "wrongiss", "algnone"}, i \in DOMAIN idts} IN
   [none |-> none, refs |-> ats \cup fs \cup is]
@@ -459,7 +462,7 @@ RefArgs ==
 TokenExchangeArgs ==
   LET R == RefArgs
       reqs_ == {"", "access", "refresh", "id", "jwt", "unknown"}
-      scs == {<<"openid">>, <<"openid", "email">>}
+      scs == {<<"openid">>, <<"openid", "email">>, <<>>, <<"email">>}
       right(sr) == [caller |-> "cw", cred |-> RightCred("cw"), subj |-> sr, actor |-> R.none, requested |-> "access", scopes |-> <<"openid", "email">>] IN
   IF Narrow
   THEN LET good == {r \in R.refs : LiveRef(r)}
@@ -471,7 +474,7 @@ TokenExchangeArgs ==
   ELSE [caller : {"cw", "cx", "cz"}, cred : {RightCred("cw"), [kind |-> "basic", secret |-> "wrong", key |-> "none", alias |-> ""]},
         subj : {r \in R.refs : r.form \in {"issued", "valid", "expired", "flipBody"}},
         actor : {R.none} \cup {r \in R.refs : r.form \in {"issued", "valid"} /\ r.declared = r.kind /\ r.id \notin {"a0", "f0"}},
-        requested : {"", "access", "refresh", "id", "jwt"}, scopes : {<<"openid", "email">>}]
+        requested : {"", "access", "refresh", "id", "jwt"}, scopes : {<<"openid", "email">>, <<"email">>}]
 
 ClientCredsArgs == {[caller |-> cc[1], cred |-> cc[2], scopes |-> s] : cc \in CallerCreds \cup ({"cs"} \X Creds), s \in {<<"api">>, <<>>}}
 JWTBearerArgs == [iss : Callers, key : {"own", "foreign"}, scopes : {<<"openid">>, <<"openid", "email", "api">>}]
